@@ -180,6 +180,26 @@ pub fn gen_corpus(rng: &mut StdRng, n: usize, dense_all: bool) -> Vec<Value> {
             while i < 7 && rng.random_bool(0.62) { i += 1; }
             format!("b{i}")
         }).collect();
+        let mut body = body;
+        // words that only occur in a prefix of the corpus (their posting lists end in the middle of a segment, so a union
+        // scorer is exhausted by a pivot seek while others go on) and rare words with a high frequency (strong single clauses)
+        let frac = id as f64 / n.max(1) as f64;
+        for (j, cut) in [0.2, 0.4, 0.6, 0.8].iter().enumerate() {
+            if frac < *cut && rng.random_bool(0.7) {
+                for _ in 0..rng.random_range(1..3) {
+                    let p = rng.random_range(0..=body.len());
+                    body.insert(p, format!("c{j}"));
+                }
+            }
+        }
+        for j in 0..3 {
+            if rng.random_bool(0.03) {
+                for _ in 0..rng.random_range(2..6) {
+                    let p = rng.random_range(0..=body.len());
+                    body.insert(p, format!("g{j}"));
+                }
+            }
+        }
         m.insert("body".into(), json!(body));
         docs.push(d);
     }
